@@ -263,3 +263,548 @@ Proof. rewrite !coeff_smatmul. apply bil_smul_l. Qed.
 
 Lemma smatmul_smul_r x a b u : coeff (smatmul a (smul x b)) u = cmul x (coeff (smatmul a b) u).
 Proof. rewrite !coeff_smatmul. apply bil_smul_r. Qed.
+
+(* ================================================================== sparse words: the merge *)
+Definition mulsw (sw : bool) (p q : P1) : Z * P1 := if sw then mul1 q p else mul1 p q.
+
+Lemma wmerge_eq sw a b : wmerge sw a b =
+  match a, b with
+  | [], _ => (0, b)
+  | _, [] => (0, a)
+  | (i, p) :: a', (j, q) :: b' =>
+      if i <? j then let '(k, w) := wmerge sw a' b in (k, (i, p) :: w)
+      else if j <? i then let '(k, w) := wmerge sw a b' in (k, (j, q) :: w)
+      else let '(k, w) := wmerge sw a' b' in
+           let '(k1, r) := mulsw sw p q in
+           match r with PI => (k, w) | _ => (k1 + k, (i, r) :: w) end
+  end.
+Proof. destruct a as [| [i p] a']; destruct b as [| [j q] b']; reflexivity. Qed.
+
+Lemma merge_ind (P : word -> word -> Prop) :
+  (forall b, P [] b) -> (forall a, P a []) ->
+  (forall i p a' j q b', i < j -> P a' ((j, q) :: b') -> P ((i, p) :: a') ((j, q) :: b')) ->
+  (forall i p a' j q b', j < i -> P ((i, p) :: a') b' -> P ((i, p) :: a') ((j, q) :: b')) ->
+  (forall i p a' q b', P a' b' -> P ((i, p) :: a') ((i, q) :: b')) ->
+  forall a b, P a b.
+Proof.
+  intros H1 H2 H3 H4 H5. induction a as [| [i p] a' IHa]; [exact H1 |].
+  induction b as [| [j q] b' IHb]; [apply H2 |].
+  destruct (Z.lt_trichotomy i j) as [L | [E | G]]; [apply H3 | subst; apply H5 | apply H4]; auto.
+Qed.
+
+Lemma wmerge_lt sw i p a' j q b' : i < j ->
+  wmerge sw ((i, p) :: a') ((j, q) :: b') =
+  (fst (wmerge sw a' ((j, q) :: b')), (i, p) :: snd (wmerge sw a' ((j, q) :: b'))).
+Proof.
+  intros L. rewrite wmerge_eq. apply Z.ltb_lt in L. rewrite L.
+  destruct (wmerge sw a' ((j, q) :: b')); reflexivity.
+Qed.
+
+Lemma wmerge_gt sw i p a' j q b' : j < i ->
+  wmerge sw ((i, p) :: a') ((j, q) :: b') =
+  (fst (wmerge sw ((i, p) :: a') b'), (j, q) :: snd (wmerge sw ((i, p) :: a') b')).
+Proof.
+  intros L. rewrite wmerge_eq. assert (E1 : (i <? j) = false) by (apply Z.ltb_ge; lia).
+  apply Z.ltb_lt in L. rewrite E1, L. destruct (wmerge sw ((i, p) :: a') b'); reflexivity.
+Qed.
+
+Lemma wmerge_same sw i p a' q b' :
+  wmerge sw ((i, p) :: a') ((i, q) :: b') =
+  match snd (mulsw sw p q) with
+  | PI => wmerge sw a' b'
+  | r => (fst (mulsw sw p q) + fst (wmerge sw a' b'), (i, r) :: snd (wmerge sw a' b'))
+  end.
+Proof.
+  rewrite wmerge_eq. rewrite Z.ltb_irrefl. destruct (wmerge sw a' b') as [k w].
+  destruct (mulsw sw p q) as [k1 r]. destruct r; reflexivity.
+Qed.
+
+Lemma lb_weaken m j r : lb j r -> m <= j -> lb m r.
+Proof. destruct r as [| [k ?] ?]; cbn; lia. Qed.
+
+Lemma lb_lookup : forall w m, wf w -> lb m w -> forall x, x <= m -> lookup w x = PI.
+Proof.
+  induction w as [| [j p] r IH]; intros m W L x Hx; cbn [lookup]; [reflexivity |].
+  cbn in L. destruct W as [_ [Lr Wr]].
+  assert (E : (x =? j) = false) by (apply Z.eqb_neq; lia). rewrite E.
+  apply (IH j Wr Lr). lia.
+Qed.
+
+Lemma keys_gt : forall w m, wf w -> lb m w -> forall x, In x (keys w) -> m < x.
+Proof.
+  induction w as [| [j p] r IH]; intros m W L x Hx; [destruct Hx |].
+  cbn in L. destruct W as [_ [Lr Wr]]. destruct Hx as [<- | Hx]; [exact L |].
+  cbn [fst] in *. pose proof (IH j Wr Lr x Hx). lia.
+Qed.
+
+Lemma mulsw_I_l sw q : mulsw sw PI q = (0, q).
+Proof. destruct sw; cbn; [apply mul1_I_r | apply mul1_I_l]. Qed.
+Lemma mulsw_I_r sw p : mulsw sw p PI = (0, p).
+Proof. destruct sw; cbn; [apply mul1_I_l | apply mul1_I_r]. Qed.
+Lemma mulsw_PI_phase sw p q : snd (mulsw sw p q) = PI -> fst (mulsw sw p q) = 0.
+Proof. destruct sw; cbn; apply mul1_PI_phase. Qed.
+
+Lemma lookup_head i p r : lookup ((i, p) :: r) i = p.
+Proof. cbn [lookup]. rewrite Z.eqb_refl. reflexivity. Qed.
+Lemma lookup_tail i p r x : x <> i -> lookup ((i, p) :: r) x = lookup r x.
+Proof. intros H. cbn [lookup]. apply Z.eqb_neq in H. rewrite H. reflexivity. Qed.
+
+(* P1: the product word is the wire-wise product *)
+Lemma wmerge_lookup sw : forall a b, wf a -> wf b ->
+  forall x, lookup (snd (wmerge sw a b)) x = snd (mulsw sw (lookup a x) (lookup b x)).
+Proof.
+  apply (merge_ind (fun a b => wf a -> wf b ->
+    forall x, lookup (snd (wmerge sw a b)) x = snd (mulsw sw (lookup a x) (lookup b x)))).
+  - intros b _ _ x. rewrite wmerge_eq. cbn [snd lookup]. rewrite mulsw_I_l. reflexivity.
+  - intros a _ _ x. rewrite wmerge_eq. destruct a as [| [i p] a']; cbn [snd lookup]; rewrite mulsw_I_r; reflexivity.
+  - intros i p a' j q b' L IH Wa Wb x. rewrite wmerge_lt by exact L. cbn [snd].
+    destruct Wa as [Hp [La Wa']].
+    destruct (Z.eq_dec x i) as [-> | N].
+    + rewrite !lookup_head. rewrite (lb_lookup ((j, q) :: b') i Wb L i) by lia.
+      rewrite mulsw_I_r. reflexivity.
+    + rewrite !(lookup_tail i) by exact N. apply IH; assumption.
+  - intros i p a' j q b' L IH Wa Wb x. rewrite wmerge_gt by exact L. cbn [snd].
+    destruct Wb as [Hq [Lb Wb']].
+    destruct (Z.eq_dec x j) as [-> | N].
+    + rewrite !lookup_head. rewrite (lb_lookup ((i, p) :: a') j Wa L j) by lia.
+      rewrite mulsw_I_l. reflexivity.
+    + rewrite !(lookup_tail j) by exact N. apply IH; assumption.
+  - intros i p a' q b' IH Wa Wb x. rewrite wmerge_same.
+    destruct Wa as [Hp [La Wa']]. destruct Wb as [Hq [Lb Wb']].
+    destruct (Z.eq_dec x i) as [-> | N].
+    + rewrite !lookup_head. destruct (snd (mulsw sw p q)) eqn:E; cbn [snd]; try (rewrite lookup_head; reflexivity).
+      rewrite IH by assumption.
+      rewrite (lb_lookup a' i Wa' La i), (lb_lookup b' i Wb' Lb i) by lia. rewrite mulsw_I_l. reflexivity.
+    + rewrite !(lookup_tail i p), !(lookup_tail i q) by exact N.
+      destruct (snd (mulsw sw p q)) eqn:E; cbn [snd]; rewrite ?(lookup_tail i) by exact N; apply IH; assumption.
+Qed.
+
+(* P2: the product word is canonical *)
+Lemma wmerge_wf sw : forall a b, wf a -> wf b ->
+  wf (snd (wmerge sw a b)) /\ forall m, lb m a -> lb m b -> lb m (snd (wmerge sw a b)).
+Proof.
+  apply (merge_ind (fun a b => wf a -> wf b ->
+    wf (snd (wmerge sw a b)) /\ forall m, lb m a -> lb m b -> lb m (snd (wmerge sw a b)))).
+  - intros b _ Wb. rewrite wmerge_eq. cbn [snd]. auto.
+  - intros a Wa _. rewrite wmerge_eq. destruct a as [| [i p] a']; cbn [snd]; auto.
+  - intros i p a' j q b' L IH Wa Wb. rewrite wmerge_lt by exact L. cbn [snd].
+    destruct Wa as [Hp [La Wa']]. destruct (IH Wa' Wb) as [W1 L1]. split.
+    + cbn [wf]. repeat split; [exact Hp | apply L1; [exact La | exact L] | exact W1].
+    + intros m Hm _. exact Hm.
+  - intros i p a' j q b' L IH Wa Wb. rewrite wmerge_gt by exact L. cbn [snd].
+    destruct Wb as [Hq [Lb Wb']]. destruct (IH Wa Wb') as [W1 L1]. split.
+    + cbn [wf]. repeat split; [exact Hq | apply L1; [exact L | exact Lb] | exact W1].
+    + intros m _ Hm. exact Hm.
+  - intros i p a' q b' IH Wa Wb. rewrite wmerge_same.
+    destruct Wa as [Hp [La Wa']]. destruct Wb as [Hq [Lb Wb']]. destruct (IH Wa' Wb') as [W1 L1].
+    destruct (snd (mulsw sw p q)) eqn:E; cbn [snd].
+    + split; [exact W1 |]. intros m Hm _. cbn in Hm. apply L1; eapply lb_weaken; try eassumption; lia.
+    + split; [cbn [wf]; repeat split; [discriminate | apply L1; assumption | exact W1] | intros m Hm _; exact Hm].
+    + split; [cbn [wf]; repeat split; [discriminate | apply L1; assumption | exact W1] | intros m Hm _; exact Hm].
+    + split; [cbn [wf]; repeat split; [discriminate | apply L1; assumption | exact W1] | intros m Hm _; exact Hm].
+Qed.
+
+(* wire-wise sums *)
+Fixpoint wsum (f : P1 -> P1 -> Z) (a b : word) (l : list Z) : Z :=
+  match l with [] => 0 | x :: r => f (lookup a x) (lookup b x) + wsum f a b r end.
+
+Lemma wsum_ext f a b a2 b2 : forall l,
+  (forall x, In x l -> lookup a x = lookup a2 x /\ lookup b x = lookup b2 x) ->
+  wsum f a b l = wsum f a2 b2 l.
+Proof.
+  induction l as [| x l IH]; intros H; cbn [wsum]; [reflexivity |].
+  destruct (H x (or_introl eq_refl)) as [-> ->]. rewrite IH; [reflexivity | intros y Hy; apply H; right; exact Hy].
+Qed.
+
+Lemma wsum_zero f a b : forall l, (forall x, In x l -> f (lookup a x) (lookup b x) = 0) -> wsum f a b l = 0.
+Proof.
+  induction l as [| x l IH]; intros H; cbn [wsum]; [reflexivity |].
+  rewrite (H x (or_introl eq_refl)), IH; [reflexivity | intros y Hy; apply H; right; exact Hy].
+Qed.
+
+Lemma wsum_flip f a b : forall l, wsum (fun p q => f q p) b a l = wsum f a b l.
+Proof. induction l as [| x l IH]; cbn [wsum]; [reflexivity | rewrite IH; reflexivity]. Qed.
+
+Lemma wsum_perm f a b l l' : Permutation l l' -> wsum f a b l = wsum f a b l'.
+Proof. induction 1; cbn [wsum]; lia. Qed.
+
+(* P3: the phase is the sum of the wire-wise phases over the wires of the first word *)
+Lemma wmerge_phase sw : forall a b, wf a -> wf b ->
+  fst (wmerge sw a b) = wsum (fun p q => fst (mulsw sw p q)) a b (keys a).
+Proof.
+  apply (merge_ind (fun a b => wf a -> wf b ->
+    fst (wmerge sw a b) = wsum (fun p q => fst (mulsw sw p q)) a b (keys a))).
+  - intros b _ _. rewrite wmerge_eq. reflexivity.
+  - intros a _ _. rewrite wmerge_eq.
+    transitivity 0; [destruct a as [| [i p] a']; reflexivity |]. symmetry.
+    apply wsum_zero. intros x _. cbn [lookup]. rewrite mulsw_I_r. reflexivity.
+  - intros i p a' j q b' L IH Wa Wb. rewrite wmerge_lt by exact L. cbn [fst keys map wsum].
+    pose proof Wa as Wa0. destruct Wa as [Hp [La Wa']].
+    rewrite lookup_head. rewrite (lb_lookup ((j, q) :: b') i Wb L i) by lia. rewrite mulsw_I_r. cbn [fst].
+    rewrite (IH Wa' Wb). rewrite Z.add_0_l. apply wsum_ext. intros x Hx. split; [| reflexivity].
+    pose proof (keys_gt a' i Wa' La x Hx). symmetry. apply lookup_tail. lia.
+  - intros i p a' j q b' L IH Wa Wb. rewrite wmerge_gt by exact L. cbn [fst].
+    destruct Wb as [Hq [Lb Wb']]. rewrite (IH Wa Wb'). apply wsum_ext. intros x Hx. split; [reflexivity |].
+    assert (i <= x).
+    { destruct Wa as [Hp [La Wa']]. destruct Hx as [<- | Hx]; [cbn; lia |]. pose proof (keys_gt a' i Wa' La x Hx). lia. }
+    symmetry. apply lookup_tail. lia.
+  - intros i p a' q b' IH Wa Wb. rewrite wmerge_same. cbn [keys map wsum fst].
+    destruct Wa as [Hp [La Wa']]. destruct Wb as [Hq [Lb Wb']]. rewrite !lookup_head.
+    assert (T : wsum (fun p0 q0 => fst (mulsw sw p0 q0)) ((i, p) :: a') ((i, q) :: b') (map fst a') =
+                wsum (fun p0 q0 => fst (mulsw sw p0 q0)) a' b' (keys a')).
+    { apply wsum_ext. intros x Hx. pose proof (keys_gt a' i Wa' La x Hx).
+      split; apply lookup_tail; lia. }
+    rewrite T, <- (IH Wa' Wb').
+    destruct (snd (mulsw sw p q)) eqn:E; cbn [fst]; try reflexivity.
+    rewrite (mulsw_PI_phase sw p q E). reflexivity.
+Qed.
+
+Lemma wmem_keys : forall w x, wmem x w = true <-> In x (keys w).
+Proof.
+  induction w as [| [j p] r IH]; intros x; cbn [wmem keys map In fst]; [split; [discriminate | tauto] |].
+  rewrite orb_true_iff, Z.eqb_eq, IH. unfold keys. split; intros [H | H]; auto.
+Qed.
+
+Lemma wmem_false_lookup : forall w x, wmem x w = false -> lookup w x = PI.
+Proof.
+  induction w as [| [j p] r IH]; intros x H; cbn [wmem lookup] in *; [reflexivity |].
+  apply orb_false_iff in H. destruct H as [H1 H2]. rewrite H1. apply IH; exact H2.
+Qed.
+
+Lemma wf_nodup : forall w, wf w -> NoDup (keys w).
+Proof.
+  induction w as [| [j p] r IH]; intros W; cbn [keys map fst]; constructor.
+  - destruct W as [_ [L Wr]]. intros H. pose proof (keys_gt r j Wr L j H). lia.
+  - apply IH. apply W.
+Qed.
+
+Lemma wsum_filter f a b : (forall q, f PI q = 0) -> forall l,
+  wsum f a b l = wsum f a b (filter (fun x => wmem x a) l).
+Proof.
+  intros F. induction l as [| x l IH]; cbn [wsum filter]; [reflexivity |].
+  destruct (wmem x a) eqn:E; cbn [wsum]; rewrite IH; [reflexivity |].
+  rewrite (wmem_false_lookup a x E), F. reflexivity.
+Qed.
+
+Lemma wsum_superset f a b order : (forall q, f PI q = 0) -> wf a -> NoDup order -> covered order a ->
+  wsum f a b order = wsum f a b (keys a).
+Proof.
+  intros F W N C. rewrite (wsum_filter f a b F order). apply wsum_perm. apply NoDup_Permutation.
+  - apply NoDup_filter. exact N.
+  - apply wf_nodup. exact W.
+  - intros x. rewrite filter_In, wmem_keys. split; [tauto | intros H; split; [apply C; exact H | exact H]].
+Qed.
+
+(* wire-wise product of the expansions *)
+Lemma fmul_map (la lb' : Z -> P1) : forall order,
+  fmul (map la order) (map lb' order) =
+  (fold_right (fun x acc => fst (mul1 (la x) (lb' x)) + acc) 0 order,
+   map (fun x => snd (mul1 (la x) (lb' x))) order).
+Proof.
+  induction order as [| x l IH]; cbn [map fmul fold_right]; [reflexivity |]. rewrite IH. reflexivity.
+Qed.
+
+Lemma wsum_fold f a b : forall l,
+  wsum f a b l = fold_right (fun x acc => f (lookup a x) (lookup b x) + acc) 0 l.
+Proof. induction l as [| x l IH]; cbn [wsum fold_right]; [reflexivity | rewrite IH; reflexivity]. Qed.
+
+Lemma wmul_algebraic_l a b order : wf a -> wf b -> NoDup order -> covered order a -> covered order b ->
+  wf (snd (wmul a b)) /\
+  (forall x, lookup (snd (wmul a b)) x = snd (mul1 (lookup a x) (lookup b x))) /\
+  expand order (snd (wmul a b)) = snd (fmul (expand order a) (expand order b)) /\
+  fst (wmul a b) = fst (fmul (expand order a) (expand order b)).
+Proof.
+  intros Wa Wb N Ca Cb.
+  assert (LK : forall x, lookup (snd (wmul a b)) x = snd (mul1 (lookup a x) (lookup b x))).
+  { intros x. unfold wmul. destruct (length b <=? length a)%nat.
+    - rewrite (wmerge_lookup false a b Wa Wb). reflexivity.
+    - rewrite (wmerge_lookup true b a Wb Wa). reflexivity. }
+  split; [| split; [exact LK | split]].
+  - unfold wmul. destruct (length b <=? length a)%nat; apply wmerge_wf; assumption.
+  - unfold expand. rewrite fmul_map. cbn [snd]. apply map_ext. exact LK.
+  - unfold expand. rewrite fmul_map. cbn [fst].
+    rewrite <- (wsum_fold (fun p q => fst (mul1 p q)) a b order).
+    unfold wmul. destruct (length b <=? length a)%nat.
+    + rewrite (wmerge_phase false a b Wa Wb). symmetry.
+      apply (wsum_superset (fun p q => fst (mulsw false p q)) a b order); try assumption.
+      intros q; destruct q; reflexivity.
+    + rewrite (wmerge_phase true b a Wb Wa).
+      rewrite <- (wsum_flip (fun p q => fst (mul1 p q)) a b order). symmetry.
+      apply (wsum_superset (fun p q => fst (mulsw true p q)) b a order); try assumption.
+      intros q; destruct q; reflexivity.
+Qed.
+
+Lemma word_mul_hom_l a b order r c :
+  wf a -> wf b -> NoDup order -> covered order a -> covered order b ->
+  length r = length order -> length c = length order ->
+  mmul (length order) (wmat order a) (wmat order b) r c =
+  cmul (iph (fst (wmul a b))) (wmat order (snd (wmul a b)) r c).
+Proof.
+  intros Wa Wb N Ca Cb Hr Hc.
+  destruct (wmul_algebraic_l a b order Wa Wb N Ca Cb) as [_ [_ [E1 E2]]].
+  unfold wmat. rewrite E1, E2.
+  assert (L : length (expand order a) = length order) by (unfold expand; apply map_length).
+  rewrite <- L. apply full_mul_hom_l; unfold expand; rewrite !map_length; auto.
+Qed.
+
+(* ================================================================== commutation *)
+Definition uwires (a b : word) : list Z := nodup Z.eq_dec (keys a ++ keys b).
+
+Lemma uwires_nodup a b : NoDup (uwires a b). Proof. apply NoDup_nodup. Qed.
+Lemma uwires_cov_l a b : covered (uwires a b) a.
+Proof. intros x H. apply nodup_In. apply in_or_app. left. exact H. Qed.
+Lemma uwires_cov_r a b : covered (uwires a b) b.
+Proof. intros x H. apply nodup_In. apply in_or_app. right. exact H. Qed.
+
+Lemma acount_wsum : forall a b, wf a -> acount a b = wsum anticom1 a b (keys a).
+Proof.
+  induction a as [| [i p] r IH]; intros b W; cbn [acount keys map wsum fst]; [reflexivity |].
+  destruct W as [Hp [L Wr]]. rewrite lookup_head. rewrite (IH b Wr).
+  assert (T : wsum anticom1 ((i, p) :: r) b (map fst r) = wsum anticom1 r b (keys r)).
+  { apply wsum_ext. intros x Hx. pose proof (keys_gt r i Wr L x Hx). split; [apply lookup_tail; lia | reflexivity]. }
+  rewrite T. f_equal. destruct (wmem i b) eqn:E; [reflexivity |].
+  rewrite (wmem_false_lookup b i E). destruct p; reflexivity.
+Qed.
+
+Lemma wsum_count a b : forall l,
+  wsum anticom1 a b l = Z.of_nat (length (filter (fun i => differ (lookup a i) (lookup b i)) l)).
+Proof.
+  induction l as [| x l IH]; cbn [wsum filter]; [reflexivity |]. rewrite IH.
+  destruct (lookup a x), (lookup b x); cbn [anticom1 differ p1_eqb negb length]; lia.
+Qed.
+
+Lemma acount_overlap a b : wf a -> acount a b = overlap a b.
+Proof.
+  intros W. rewrite (acount_wsum a b W). unfold overlap. fold (uwires a b). rewrite <- wsum_count.
+  symmetry. apply wsum_superset; [intros q; destruct q; reflexivity | exact W | apply uwires_nodup | apply uwires_cov_l].
+Qed.
+
+Lemma commutes_even_l a b : wf a -> commutes a b = Z.even (overlap a b).
+Proof.
+  intros W. unfold commutes. rewrite (acount_overlap a b W). rewrite Zmod_even.
+  destruct (Z.even (overlap a b)); reflexivity.
+Qed.
+
+Lemma wf_ext : forall w1 w2, wf w1 -> wf w2 -> (forall x, lookup w1 x = lookup w2 x) -> w1 = w2.
+Proof.
+  induction w1 as [| [i p] r1 IH]; intros w2 W1 W2 H; destruct w2 as [| [j q] r2]; [reflexivity | | |].
+  - exfalso. specialize (H j). rewrite lookup_head in H. cbn in H. destruct W2 as [Hq _]. congruence.
+  - exfalso. specialize (H i). rewrite lookup_head in H. cbn in H. destruct W1 as [Hp _]. congruence.
+  - pose proof W1 as W1'. pose proof W2 as W2'. destruct W1 as [Hp [L1 Wr1]]. destruct W2 as [Hq [L2 Wr2]].
+    destruct (Z.lt_trichotomy i j) as [L | [E | G]].
+    + exfalso. specialize (H i). rewrite lookup_head in H.
+      rewrite (lb_lookup ((j, q) :: r2) i W2' L i) in H by lia. congruence.
+    + subst j. pose proof (H i) as Hi. rewrite !lookup_head in Hi. subst q. f_equal.
+      apply IH; [exact Wr1 | exact Wr2 |]. intros x. destruct (Z.eq_dec x i) as [-> | N].
+      * rewrite (lb_lookup r1 i Wr1 L1 i), (lb_lookup r2 i Wr2 L2 i) by lia. reflexivity.
+      * specialize (H x). rewrite !lookup_tail in H by exact N. exact H.
+    + exfalso. specialize (H j). rewrite lookup_head in H.
+      rewrite (lb_lookup ((i, p) :: r1) j W1' G j) in H by lia. congruence.
+Qed.
+
+Lemma mul1_word_comm p q : snd (mul1 p q) = snd (mul1 q p).
+Proof. destruct p, q; reflexivity. Qed.
+
+Lemma wmul_comm_word a b : wf a -> wf b -> snd (wmul b a) = snd (wmul a b).
+Proof.
+  intros Wa Wb.
+  destruct (wmul_algebraic_l a b (uwires a b) Wa Wb (uwires_nodup a b) (uwires_cov_l a b) (uwires_cov_r a b)) as [W1 [K1 _]].
+  destruct (wmul_algebraic_l b a (uwires a b) Wb Wa (uwires_nodup a b) (uwires_cov_r a b) (uwires_cov_l a b)) as [W2 [K2 _]].
+  apply wf_ext; [exact W2 | exact W1 |]. intros x. rewrite K1, K2. apply mul1_word_comm.
+Qed.
+
+Lemma wmul_phase_wsum a b order : wf a -> wf b -> NoDup order -> covered order a -> covered order b ->
+  fst (wmul a b) = wsum (fun p q => fst (mul1 p q)) a b order.
+Proof.
+  intros Wa Wb N Ca Cb. destruct (wmul_algebraic_l a b order Wa Wb N Ca Cb) as [_ [_ [_ E]]].
+  rewrite E. unfold expand. rewrite fmul_map. cbn [fst]. symmetry. apply wsum_fold.
+Qed.
+
+Lemma wsum_div f g h a b : (forall p q, (4 | g p q - f p q - 2 * h p q)) -> forall l,
+  (4 | wsum g a b l - wsum f a b l - 2 * wsum h a b l).
+Proof.
+  intros T. induction l as [| x l IH]; cbn [wsum]; [exists 0; reflexivity |].
+  replace (g (lookup a x) (lookup b x) + wsum g a b l - (f (lookup a x) (lookup b x) + wsum f a b l) -
+           2 * (h (lookup a x) (lookup b x) + wsum h a b l))
+    with ((g (lookup a x) (lookup b x) - f (lookup a x) (lookup b x) - 2 * h (lookup a x) (lookup b x)) +
+          (wsum g a b l - wsum f a b l - 2 * wsum h a b l)) by ring.
+  apply Z.divide_add_r; [apply T | exact IH].
+Qed.
+
+Lemma table_anticom p q : (4 | fst (mul1 q p) - fst (mul1 p q) - 2 * anticom1 p q).
+Proof. destruct p, q; cbn; first [exists 0; reflexivity | exists (-1); reflexivity]. Qed.
+
+Lemma iph_2n n : iph (2 * n) = if n mod 2 =? 0 then c1 else cneg c1.
+Proof.
+  unfold iph. change 4 with (2 * 2). rewrite Zmult_mod_distr_l.
+  pose proof (Z.mod_pos_bound n 2 ltac:(lia)) as B.
+  assert (H : n mod 2 = 0 \/ n mod 2 = 1) by lia. destruct H as [-> | ->]; reflexivity.
+Qed.
+
+Lemma wmul_comm_phase a b : wf a -> wf b ->
+  iph (fst (wmul b a)) = cmul (if commutes a b then c1 else cneg c1) (iph (fst (wmul a b))).
+Proof.
+  intros Wa Wb.
+  pose proof (wmul_phase_wsum a b (uwires a b) Wa Wb (uwires_nodup a b) (uwires_cov_l a b) (uwires_cov_r a b)) as E1.
+  pose proof (wmul_phase_wsum b a (uwires a b) Wb Wa (uwires_nodup a b) (uwires_cov_r a b) (uwires_cov_l a b)) as E2.
+  pose proof (wsum_flip (fun p q => fst (mul1 q p)) a b (uwires a b)) as FL. cbv beta in FL. rewrite FL in E2. clear FL.
+  assert (E3 : acount a b = wsum anticom1 a b (uwires a b)).
+  { rewrite (acount_wsum a b Wa). symmetry.
+    apply wsum_superset; [intros q; destruct q; reflexivity | exact Wa | apply uwires_nodup | apply uwires_cov_l]. }
+  destruct (wsum_div (fun p q => fst (mul1 p q)) (fun p q => fst (mul1 q p)) anticom1 a b table_anticom (uwires a b)) as [m Hm].
+  rewrite <- E1, <- E3 in Hm. cbv beta in E2. rewrite <- E2 in Hm.
+  replace (fst (wmul b a)) with ((fst (wmul a b) + 2 * acount a b) + m * 4) by lia.
+  rewrite iph_mod, Z_mod_plus_full, <- iph_mod, iph_add, iph_2n. unfold commutes. ring.
+Qed.
+
+(* the commutator of two words, as a formal combination, is a@b - b@a *)
+Lemma wcomm_spec a b (h : word -> GZ) : wf a -> wf b ->
+  cmul (snd (wcomm a b)) (h (fst (wcomm a b))) =
+  csub (cmul (iph (fst (wmul a b))) (h (snd (wmul a b)))) (cmul (iph (fst (wmul b a))) (h (snd (wmul b a)))).
+Proof.
+  intros Wa Wb. rewrite (wmul_comm_word a b Wa Wb), (wmul_comm_phase a b Wa Wb). unfold wcomm.
+  destruct (commutes a b); [cbn [fst snd]; ring |].
+  destruct (wmul a b) as [k w]. cbn [fst snd].
+  replace (2, 0) with (cadd c1 c1) by reflexivity. ring.
+Qed.
+
+(* ================================================================== sentence products and matrices *)
+Lemma mmul_lin_l n (F : word -> list bool -> list bool -> GZ) N r c : forall a,
+  mmul n (fun r' k => lin (fun w => F w r' k) a) N r c = lin (fun w => mmul n (F w) N r c) a.
+Proof.
+  unfold mmul. induction a as [| [w x] a IH]; cbn [lin].
+  - rewrite (csum_ext _ (fun _ => c0)) by (intros; ring). apply csum_zero.
+  - rewrite <- IH, <- csum_scale, <- csum_add. apply csum_ext. intros k _. ring.
+Qed.
+
+Lemma mmul_lin_r n (F : word -> list bool -> list bool -> GZ) M r c : forall b,
+  mmul n M (fun k c' => lin (fun w => F w k c') b) r c = lin (fun w => mmul n M (F w) r c) b.
+Proof.
+  unfold mmul. induction b as [| [w x] b IH]; cbn [lin].
+  - rewrite (csum_ext _ (fun _ => c0)) by (intros; ring). apply csum_zero.
+  - rewrite <- IH, <- csum_scale, <- csum_add. apply csum_ext. intros k _. ring.
+Qed.
+
+Lemma mmul_ext n M M' N N' r c :
+  (forall k, M r k = M' r k) -> (forall k, N k c = N' k c) -> mmul n M N r c = mmul n M' N' r c.
+Proof. intros H1 H2. unfold mmul. apply csum_ext. intros k _. rewrite H1, H2. reflexivity. Qed.
+
+Lemma smatmul_mat_hom_l order a b r c :
+  NoDup order -> sent_wf order a -> sent_wf order b ->
+  length r = length order -> length c = length order ->
+  smat order (smatmul a b) r c = mmul (length order) (smat order a) (smat order b) r c.
+Proof.
+  intros N Sa Sb Hr Hc. rewrite smat_lin, lin_smatmul. unfold bil.
+  rewrite (mmul_ext _ _ (fun r' k => lin (fun w => wmat order w r' k) a) _ (fun k c' => lin (fun w => wmat order w k c') b))
+    by (intros; apply smat_lin).
+  rewrite mmul_lin_l. apply lin_ext. intros w1 x1 H1. rewrite mmul_lin_r. apply lin_ext. intros w2 x2 H2.
+  destruct (Sa w1 x1 H1) as [W1 C1]. destruct (Sb w2 x2 H2) as [W2 C2].
+  symmetry. apply word_mul_hom_l; assumption.
+Qed.
+
+(* ================================================================== trace *)
+Definition tr1 (p : P1) : GZ := match p with PI => (2, 0) | _ => c0 end.
+Definition cpow2 (n : nat) : GZ := (2 ^ Z.of_nat n, 0).
+
+Lemma mtrace_kmat : forall l, mtrace (length l) (kmat l) = fold_right (fun p acc => cmul (tr1 p) acc) c1 l.
+Proof.
+  induction l as [| p l IH]; [reflexivity |].
+  cbn [length fold_right]. rewrite <- IH. unfold mtrace. cbn [bits]. rewrite map_app, csum_app, !map_map. cbn [kmat].
+  rewrite !csum_scale. destruct p; cbn [mat1 tr1]; ring_simplify; try reflexivity.
+  - replace (2, 0) with (cadd c1 c1) by reflexivity. change (1, 0) with c1. ring.
+  - change (1, 0) with c1. change (-1, 0) with (cneg c1). change (0, 0) with c0. ring.
+Qed.
+
+Lemma prod_identity : forall order, fold_right (fun p acc => cmul (tr1 p) acc) c1 (expand order []) = cpow2 (length order).
+Proof.
+  unfold expand. induction order as [| x l IH]; [reflexivity |]. cbn [map fold_right length].
+  rewrite IH. cbn [lookup]. unfold cpow2, cmul, tr1. cbn [fst snd]. rewrite Nat2Z.inj_succ, Z.pow_succ_r by lia. f_equal; ring.
+Qed.
+
+Lemma prod_zero w : forall order x, In x order -> lookup w x <> PI ->
+  fold_right (fun p acc => cmul (tr1 p) acc) c1 (expand order w) = c0.
+Proof.
+  unfold expand. induction order as [| y l IH]; intros x Hx Hl; [destruct Hx |]. cbn [map fold_right].
+  destruct Hx as [-> | Hx].
+  - destruct (lookup w x); [congruence | | |]; cbn [tr1]; ring.
+  - rewrite (IH x Hx Hl). ring.
+Qed.
+
+Lemma mtrace_word order w : wf w -> covered order w ->
+  mtrace (length order) (wmat order w) = cmul (cpow2 (length order)) (delta [] w).
+Proof.
+  intros W C. unfold wmat. replace (length order) with (length (expand order w)) at 1 by (unfold expand; apply map_length).
+  rewrite mtrace_kmat. destruct w as [| [i p] r].
+  - rewrite prod_identity. unfold delta. cbn [weqb]. ring.
+  - unfold delta. cbn [weqb]. rewrite (prod_zero _ order i).
+    + ring.
+    + apply C. left. reflexivity.
+    + rewrite lookup_head. apply W.
+Qed.
+
+Lemma mtrace_lin n (F : word -> list bool -> list bool -> GZ) : forall s,
+  mtrace n (fun r c => lin (fun w => F w r c) s) = lin (fun w => mtrace n (F w)) s.
+Proof.
+  unfold mtrace. induction s as [| [w x] s IH]; cbn [lin].
+  - apply csum_zero.
+  - rewrite <- IH, <- csum_scale, <- csum_add. reflexivity.
+Qed.
+
+Lemma trace_l order s : sent_wf order s ->
+  mtrace (length order) (smat order s) = cmul (cpow2 (length order)) (coeff s []).
+Proof.
+  intros S. unfold mtrace.
+  rewrite (csum_ext _ (fun r => lin (fun w => wmat order w r r) s)) by (intros; apply smat_lin).
+  fold (mtrace (length order) (fun r c => lin (fun w => wmat order w r c) s)).
+  rewrite mtrace_lin, coeff_lin, <- lin_scale. apply lin_ext. intros w x H.
+  destruct (S w x H) as [W C]. apply mtrace_word; assumption.
+Qed.
+
+Lemma strace_coeff : forall s, NoDup (map fst s) -> strace s = coeff s [].
+Proof.
+  induction s as [| [w x] s IH]; intros N; cbn [strace coeff]; [reflexivity |].
+  inversion N as [| ? ? Hn Ns]; subst. destruct w as [| e w]; cbn [weqb].
+  - assert (Z0 : coeff s [] = c0).
+    { clear IH Ns N. induction s as [| [w' x'] s IH']; cbn [coeff]; [reflexivity |].
+      destruct w' as [| [i' p'] w']; [exfalso; apply Hn; left; reflexivity |].
+      cbn [weqb]. rewrite IH'; [ring | intros H; apply Hn; right; exact H]. }
+    rewrite Z0. ring.
+  - destruct e. rewrite (IH Ns). ring.
+Qed.
+
+(* mkword produces canonical words *)
+Lemma winsert_wf i p : forall w, wf w -> p <> PI -> ~ In i (keys w) ->
+  wf (winsert i p w) /\ forall m, m < i -> lb m w -> lb m (winsert i p w).
+Proof.
+  induction w as [| [j q] r IH]; intros W Hp Hn; cbn [winsert].
+  - split; [cbn; auto | intros m Hm _; exact Hm].
+  - destruct W as [Hq [L Wr]]. destruct (i <? j) eqn:E.
+    + apply Z.ltb_lt in E. split; [cbn [wf lb]; auto | intros m Hm _; exact Hm].
+    + apply Z.ltb_ge in E. assert (i <> j) by (intros ->; apply Hn; left; reflexivity).
+      destruct (IH Wr Hp (fun H' => Hn (or_intror H'))) as [W1 L1].
+      split; [cbn [wf]; repeat split; [exact Hq | apply L1; [lia | exact L] | exact W1] | intros m Hm Hl; exact Hl].
+Qed.
+
+Lemma keys_winsert i p : forall w x, In x (keys (winsert i p w)) -> x = i \/ In x (keys w).
+Proof.
+  induction w as [| [j q] r IH]; intros x H; cbn [winsert] in H.
+  - destruct H as [<- | []]; auto.
+  - destruct (i <? j); cbn [keys map fst In] in *.
+    + destruct H as [<- | H]; auto.
+    + destruct H as [<- | H]; auto. destruct (IH x H); auto.
+Qed.
+
+Lemma keys_mkword : forall raw x, In x (keys (mkword raw)) -> In x (map fst raw).
+Proof.
+  induction raw as [| [i p] r IH]; intros x H; cbn [mkword] in H; [destruct H |].
+  cbn [map fst In]. destruct p; try (right; apply IH; exact H);
+    (destruct (keys_winsert _ _ _ _ H) as [-> | H']; [left; reflexivity | right; apply IH; exact H']).
+Qed.
+
+Lemma mkword_wf : forall raw, NoDup (map fst raw) -> wf (mkword raw).
+Proof.
+  induction raw as [| [i p] r IH]; intros N; cbn [mkword]; [exact I |].
+  inversion N as [| ? ? Hn Nr]; subst.
+  assert (Hk : ~ In i (keys (mkword r))) by (intros H; apply Hn; apply keys_mkword; exact H).
+  destruct p; [apply IH; exact Nr | | |]; apply winsert_wf; auto; discriminate.
+Qed.
